@@ -21,10 +21,17 @@ def run(name, tier, seed):
             raise RuntimeError('build failed: ' + err)
         rc, out = replayers.run([exe, 'grid', tier], 3000 if tier == 'thorough' else 600)
         m = re.search(r'GRID cases=(\d+) evaluations=(\d+) failures=(\d+)', out)
-        if not m:
-            raise RuntimeError('grid produced no summary: ' + out[-500:])
-        cases, evals, fails = int(m.group(1)), int(m.group(2)), int(m.group(3))
         lines = [l for l in out.split('\n') if l.startswith('REPLAY-FAIL')]
+        if not m:
+            if rc in (0, 1, 124):
+                raise RuntimeError('grid produced no summary: ' + out[-500:])
+            # the real generator crashed / threw inside the grid: an observable failure of the real code
+            obs.append({'name': 'zipf_grid', 'description': '[C18][numeric-grid] the real generators terminated abnormally inside the numeric grid (rc=%d): %s' % (rc, ' '.join(out[-300:].split())),
+                        'status': 'FAILURE', 'tags': ['C18', 'numeric-grid'], 'function': 'zipf_replay grid', 'line': None, 'file': 'zipf_replay.cpp',
+                        'native': {'reproduced': True, 'command': 'zipf_replay grid %s' % tier, 'observed': [out[-300:]]}})
+            cases, evals, fails = len(lines) + 1, 0, len(lines) + 1
+        else:
+            cases, evals, fails = int(m.group(1)), int(m.group(2)), int(m.group(3))
         for l in lines:
             obs.append({'name': 'zipf_grid', 'description': '[C18][numeric-grid] ' + l[len('REPLAY-FAIL: '):], 'status': 'FAILURE',
                         'tags': ['C18', 'numeric-grid'], 'function': 'zipf_replay grid', 'line': None, 'file': 'zipf_replay.cpp',
